@@ -14,6 +14,17 @@ fn pick<T: Copy>(r: &mut StdRng, xs: &[T]) -> T {
 pub fn gen_tcp_options(r: &mut StdRng, n: usize) -> Vec<u8> {
     // n bytes of option area built from plausible option encodings, padded with NOP/END
     let mut o: Vec<u8> = vec![];
+    // a selective acknowledgement option of every plausible (and implausible) length that ends exactly with the option area:
+    // whatever an iterator reads behind it lies behind the header (and, without payload, behind the input)
+    if n >= 6 && r.gen_range(0..4) == 0 {
+        let l = pick(r, &[10usize, 14, 18, 22, 26, 30, 34, 12, 16, 6, 38]);
+        if l <= n {
+            o.extend(std::iter::repeat(1u8).take(n - l));
+            o.extend([5, l as u8]);
+            o.extend((0..l - 2).map(|_| r.gen::<u8>()));
+            return o;
+        }
+    }
     while o.len() < n {
         let left = n - o.len();
         match r.gen_range(0..10) {
@@ -38,7 +49,7 @@ pub fn gen_tcp_options(r: &mut StdRng, n: usize) -> Vec<u8> {
 }
 
 pub fn gen_transport(r: &mut StdRng) -> (u8, Vec<u8>) {
-    let plen = r.gen_range(0..12usize);
+    let plen = if r.gen_range(0..3) == 0 { 0 } else { r.gen_range(0..12usize) };
     let payload: Vec<u8> = (0..plen).map(|_| r.gen()).collect();
     match r.gen_range(0..7) {
         0 => {
@@ -60,7 +71,7 @@ pub fn gen_transport(r: &mut StdRng) -> (u8, Vec<u8>) {
         }
         1 => {
             // tcp
-            let doff = pick(r, &[5u8, 5, 5, 6, 7, 4, 15, 8]);
+            let doff = pick(r, &[5u8, 5, 5, 6, 7, 4, 15, 8, 9, 10, 12]);
             let mut b: Vec<u8> = (0..20).map(|_| r.gen()).collect();
             b[12] = doff << 4 | (r.gen::<u8>() & 0xf);
             let opt = if doff > 5 { (doff as usize - 5) * 4 } else { 0 };
